@@ -139,6 +139,22 @@ def part_bas(ck, exe, model):
             ck.count("bas:zero-on-bounded-variable(loaded paths only)")
         for ci, ((pn, pre, loaded), nm, cpx) in enumerate(combos):
             # the outside writer reads _rowTypes, which is maintained only in the sync modes that keep a rational LP
+            pre = list(pre)
+            if nm == 0 and (ci + len(cid)) % 2 == 1 and p.n >= 1 and p.m >= 1:
+                # the same LP, but a column and a row have been re-entered at the end and the originals removed: the last element moves
+                # into the hole, so the internal keys no longer coincide with the positions (default names are by POSITION; with user name
+                # sets the writer looks names up by the LP's keys, i.e. the caller has to maintain the name set in parallel - not done here)
+                jx, ix = r.randrange(p.n), r.randrange(p.m)
+                q = lpgen.qs
+                o, lo, up = p.cols[jx]
+                ent = " ".join("%d:%s" % (i, q(rw[1][jx])) for i, rw in enumerate(p.rows) if rw[1].get(jx, 0) != 0)
+                pre.append("MOD zz1 addcol %s %s %s %s" % (q(o), lpgen.NINF if lo is None else q(lo), lpgen.INF if up is None else q(up), ent))
+                pre.append("MOD zz2 rmcol %d" % jx)
+                lhs, co, rhs = p.rows[ix]
+                pre.append("MOD zz3 addrow %s %s %s" % (lpgen.NINF if lhs is None else q(lhs), lpgen.INF if rhs is None else q(rhs),
+                                                       " ".join("%d:%s" % (j, q(v)) for j, v in sorted(co.items()) if v != 0)))
+                pre.append("MOD zz4 rmrow %d" % ix)
+                ck.count("bas:rekeyed-lp")
             htxt += "\n".join(pre) + "\nNAMES r %s\nNAMES c %s\n" % (" ".join(rn), " ".join(cn))
             htxt += "SETB s%d %s %s\nDUMP d%d\nWBAS w%d %d %d\n" % (ci, bc.sarg(rows), bc.sarg(cols), ci, ci, nm, cpx)
             if loaded:
